@@ -130,15 +130,20 @@ func runC04(c *core.Ctx) {
 	c01CommitGateAs(c, "C04.R3")
 }
 
-// c01CommitGateAs re-evaluates the commit gate under another rule label.
-func c01CommitGateAs(c *core.Ctx, rule string) {
+// relabel runs f and re-labels the obligations it adds with another rule id
+// (a clause shared by two properties is evaluated under each).
+func relabel(c *core.Ctx, rule string, f func()) {
 	before := len(c.Rep.Obls)
-	c01CommitGate(c)
+	f()
 	for i := before; i < len(c.Rep.Obls); i++ {
 		o := &c.Rep.Obls[i]
 		o.Key = strings.Replace(o.Key, o.Rule, rule, 1)
 		o.Rule = rule
 	}
+}
+
+func c01CommitGateAs(c *core.Ctx, rule string) {
+	relabel(c, rule, func() { c01CommitGate(c) })
 }
 
 // c04ResumeRegistersOffset: on every path of ocimem's PushBlobChunkedResume
